@@ -138,6 +138,55 @@ Theorem scope_name_may_collide_refuted :
 Proof. split; vm_compute; reflexivity. Qed.
 Print Assumptions scope_name_may_collide_refuted.
 
+(* ---- Go type names over the scope (scope.go GoTypeName / GoTypeRef; primitives, arrays, maps, user types) ---- *)
+
+(* GoTypeName changes the scope exactly as the HashedUnique calls of the user types of the type, in order *)
+Theorem go_type_name_is_its_hashed_unique_calls g t s : snd (go_type_name g s t) = exec s (type_ops g t).
+Proof. exact (go_type_name_scope g t s). Qed.
+Print Assumptions go_type_name_is_its_hashed_unique_calls.
+
+(* FULL: after any sequence of GoTypeName / GoTypeRef calls over any types on a fresh scope, two user types
+   (two hashes) never share a Go type name — whatever their declared names Goify to *)
+Theorem type_names_injective g calls h1 h2 n :
+  lookup h1 (names (types_scope g calls)) = Some n ->
+  lookup h2 (names (types_scope g calls)) = Some n -> h1 = h2.
+Proof. exact (type_names_injective_lemma g calls h1 h2 n). Qed.
+Print Assumptions type_names_injective.
+
+(* FULL: the name rendered for a user type is the one bound to its hash, and it is a taken name *)
+Theorem user_type_name_is_bound g s h n o x s' :
+  inv s -> go_type_name g s (TUser h n o) = (x, s') -> lookup h (names s') = Some x /\ lookup x (counts s') <> None.
+Proof. exact (user_type_name_bound g s h n o x s'). Qed.
+Print Assumptions user_type_name_is_bound.
+
+(* FULL: a user type keeps its Go name: after any further calls, under any declared name *)
+Theorem type_name_stable g s h n ops n' o :
+  inv s -> lookup h (names s) = Some n -> fst (go_type_name g (exec s ops) (TUser h n' o)) = n.
+Proof. exact (type_name_stable_lemma g s h n ops n' o). Qed.
+Print Assumptions type_name_stable.
+
+(* Unique returns the name, the name + suffix, or that + a decimal counter ... *)
+Theorem unique_result_shape s name suffix r s' :
+  unique s name suffix = (r, s') ->
+  let base := (name ++ match suffix with Some sf => sf | None => [] end)%list in
+  r = name \/ r = base \/ exists j, r = (base ++ itoa j)%list.
+Proof. exact (unique_shape s name suffix r s'). Qed.
+Print Assumptions unique_result_shape.
+
+(* ... hence an identifier stays an identifier (composition of the Goify and scope theorems: a type name
+   allocated for an identifier Goify produced is a Go identifier) and keeps its first rune (exportedness) *)
+Theorem unique_keeps_go_identifier il id s name suffix r s' :
+  (forall c, (48 <=? c) && (c <=? 57) = true -> id c = true) ->
+  unique s name suffix = (r, s') ->
+  go_ident il id name = true ->
+  (forall sf, suffix = Some sf -> Forall (fun c => go_letter il c || id c = true) sf) ->
+  go_ident il id r = true /\ (forall c0 rest, name = c0 :: rest -> exists rest', r = c0 :: rest').
+Proof.
+  intros Hd H Hn Hs. split; [exact (unique_keeps_identifier il id Hd s name suffix r s' H Hn Hs)|].
+  intros c0 rest E. exact (unique_keeps_first s name suffix r s' c0 rest H E).
+Qed.
+Print Assumptions unique_keeps_go_identifier.
+
 (* non-vacuity *)
 Example goify_examples :
   d_goify (bytes_of "user_id") true = bytes_of "UserID" /\
@@ -153,4 +202,13 @@ Example scope_example :
   run empty_scope [OHashed [1] a (Some []); OHashed [2] a (Some []); OUnique a (Some (bytes_of "Res")); OHashed [1] a (Some []);
                    OUnique a (Some (bytes_of "Res")); OUnique a None]
   = [a; bytes_of "A2"; bytes_of "ARes"; a; bytes_of "ARes2"; bytes_of "A3"].
+Proof. vm_compute. reflexivity. Qed.
+
+Example type_names_example :
+  let g := fun n => d_goify n true in
+  let foo_bar := TUser [1] (bytes_of "foo_bar") true in
+  let fooBar := TUser [2] (bytes_of "fooBar") true in
+  let alias := TUser [3] (bytes_of "type") false in
+  run_types g empty_scope [(true, foo_bar); (false, TMap (TPrim PString) (TArray fooBar)); (true, TArray alias); (true, foo_bar); (false, TArray (TPrim PBytes))]
+  = [bytes_of "*FooBar"; bytes_of "map[string][]*FooBar2"; bytes_of "[]Type"; bytes_of "*FooBar"; bytes_of "[][]byte"].
 Proof. vm_compute. reflexivity. Qed.
